@@ -72,6 +72,22 @@ class LocalSim(mosaik_api_v3.Simulator):
             self.ctx.record({"k": "FAULT", "s": self.sid, "kind": "raise", "req": "get_data"})
             raise rep.exc
         self.ctx.record(_de_event(self.sid, rep.value, self.ctx.steptime[self.sid]))
+        if S.sim_by_id(self.ctx.scn)[self.sid].get("reuse"):
+            # a simulator that keeps ONE output dictionary, updates it in place in every step and returns it
+            # (a common way to write get_data); mosaik receives the same objects again and again
+            out = self.__dict__.setdefault("_out", {})
+            new = rep.value
+            for key in [k for k in out if k not in new]:
+                del out[key]
+            for key, val in new.items():
+                if isinstance(val, dict):
+                    d = out.setdefault(key, {})
+                    for a in [a for a in d if a not in val]:
+                        del d[a]
+                    d.update(val)
+                else:
+                    out[key] = val
+            return out
         return copy.deepcopy(rep.value)
 
     def finalize(self):
